@@ -453,16 +453,17 @@ class Ctx:
 
     # -- Lean -----------------------------------------------------------------------------------
     def prove(self, module, exes=()):
-        """lake build of the property module (+ driver exes), forbidden-token scan, axiom audit.
-        Fills the proof keys of coverage.  Returns (ok, log)."""
-        hits = forbidden_scan([module])
-        ok, out = lake_build([module] + list(exes))
+        """lake build of the property module(s) (+ driver exes), forbidden-token scan of their import closure, axiom audit of
+        every theorem.  `module` is a module name or a list of them.  Fills the proof keys of coverage.  Returns (ok, log)."""
+        modules = [module] if isinstance(module, str) else list(module)
+        hits = forbidden_scan(modules)
+        ok, out = lake_build(modules + list(exes))
         cov = self.coverage
-        cov["checker_cmd"] = "cd lean && lake build %s && lake env lean <#print axioms on every theorem>" % module
+        cov["checker_cmd"] = "cd lean && lake build %s && lake env lean <#print axioms on every theorem>" % " ".join(modules)
         if self.thorough:
-            cov["checker_cmd"] += " && lake env leanchecker %s" % module
+            cov["checker_cmd"] += " && lake env leanchecker <module>"
         cov["trusted_base"] = list(TRUSTED_BASE)
-        names = theorems_of(module)
+        names = [n for m in modules for n in theorems_of(m)]
         cov["obligations"] = len(names)
         cov["theorems"] = names
         cov["discharged"] = 0
@@ -470,8 +471,10 @@ class Ctx:
         if not ok:
             cov["lean_error"] = out[-3000:]
             return False, out
+        ax = {}
         try:
-            ax = axiom_audit(module)
+            for m in modules:
+                ax.update(axiom_audit(m))
         except Exception as ex:  # noqa
             cov["lean_error"] = str(ex)[-3000:]
             return False, str(ex)
@@ -481,10 +484,11 @@ class Ctx:
             cov["lean_error"] = "disallowed axioms %r / forbidden tokens %r" % (bad, hits)
             return False, cov["lean_error"]
         if self.thorough:
-            okc, outc = leanchecker(module)
-            cov["leanchecker"] = "ok" if okc else outc[-2000:]
-            if not okc:
-                return False, outc
+            for m in modules:
+                okc, outc = leanchecker(m)
+                cov["leanchecker"] = "ok" if okc else outc[-2000:]
+                if not okc:
+                    return False, outc
         cov["discharged"] = len(names)
         return True, out
 
